@@ -132,6 +132,11 @@ func TestVerifC08Histories(t *testing.T) {
 				}
 				step(act{Op: "unresolve-usage", I: idx(t), Obj: rapid.SampledFrom([]string{"by", "by", "of", "both"}).Draw(t, "side"), J: rapid.IntRange(0, 1).Draw(t, "mismatch")})
 			},
+			"relabel-using": func(t *rapid.T) {
+				if rapid.Bool().Draw(t, "really") {
+					step(act{Op: "relabel-using", I: idx(t), Obj: rapid.SampledFrom([]string{"none", "other"}).Draw(t, "to")})
+				}
+			},
 			"label-using": func(t *rapid.T) {
 				if rapid.Bool().Draw(t, "really") {
 					step(act{Op: "label-using", I: idx(t)})
@@ -182,6 +187,9 @@ func TestVerifC08Histories(t *testing.T) {
 		}
 		if w.usageDelRecUnresolvedFault > 0 {
 			rec.Label("usage-deletion-reconcile-unresolved-selector-using-alive+fault")
+		}
+		if w.usageDelRecForeignUsing > 0 {
+			rec.Label("usage-deletion-reconcile-using-alive-without-the-usages-composite-label")
 		}
 		if w.usageLabelMismatch > 0 {
 			rec.Label("usage-deletion-reconcile-selector-label-mismatch")
